@@ -66,7 +66,7 @@ def run(outcome, tier, seed):
         stdin = b'{"from":"stdin","pad":"' + b"s" * 300 + b'"}\n'
         inputs = [["a.json"], ["mid.json"], ["big.json"], ["a.json", "b.yaml"], ["a.json", "big.json"], ["big.json", "a.json"],
                   ["empty.json"], ["empty.json", "a.json"], ["-"], [], ["a.json", "-", "big.json"], ["missing.json"], ["a.json", "missing.json"],
-                  ["bad.json"], ["huge.json"]]
+                  ["bad.json"], ["huge.json"]] + [["docs%d.json" % L] for L in range(1, 7)] + [["a.json", "docs2.json"]]
         for names in inputs:
             for to in ("json", "yaml", "msgpack", "toml"):
                 if to == "toml" and len([n for n in names if n != "empty.json"]) > 1:
